@@ -42,15 +42,15 @@ if REPO != "/repo":
 if ROOT not in sys.path:
     sys.path.insert(0, ROOT)
 
-CASE_TIMEOUT_S = int(os.environ.get("VERIF_CASE_TIMEOUT", "300"))
+CASE_TIMEOUT_S = int(os.environ.get("VERIF_CASE_TIMEOUT", "1500"))
 
 
 def _load(prop: str):
     return importlib.import_module(f"props.{prop.lower()}")
 
 
-class _CaseTimeout(Exception):
-    pass
+class _CaseTimeout(BaseException):
+    """not an Exception: a property module's own `except Exception` must not mistake the harness timer for a failure of the code under test"""
 
 
 def _alarm(signum, frame):
@@ -79,18 +79,16 @@ def execute_case(mod, case: dict) -> dict:
     try:
         res = mod.run_case(case)
     except _CaseTimeout:
+        # the wall-clock limit says nothing about the property (the machine may simply be overloaded): the case is NOT explored;
+        # it is counted as skipped, reported on stderr, and makes the evidence non-exhaustive
+        print(f"HARNESS-WARNING case exceeded {CASE_TIMEOUT_S}s and was skipped: {json.dumps(case, default=str)[:300]}", file=sys.stderr)
         res = {
-            "violations": [
-                {
-                    "check": "timeout",
-                    "key": {"check": "timeout"},
-                    "detail": f"case exceeded {CASE_TIMEOUT_S}s",
-                }
-            ],
+            "violations": [],
             "fingerprint": "timeout",
             "nontrivial": False,
             "outcome": "timeout",
             "transitions": 0,
+            "skipped": "harness_timeout",
         }
     except Exception as err:  # the property promises a result; a crash is a failure to deliver it
         tb = traceback.format_exc(limit=6)
@@ -322,7 +320,7 @@ def main(argv=None) -> int:
         "evaluations": len(cases),
         "distinct_nontrivial": len(fps_nontrivial),
         "rule": desc.get("rule", ""),
-        "exhaustive": bool(desc.get("exhaustive", True)) and not args.filter,
+        "exhaustive": bool(desc.get("exhaustive", True)) and not args.filter and "harness_timeout" not in skipped,
         "bound": desc.get("bound", ""),
         "alphabet": desc.get("alphabet", {}),
         "distinct_outcome_fingerprints": len(fps_all),
